@@ -248,6 +248,53 @@ def rule_own_storage(fx, col):
                     ok = rr == ('arg', 3) or (rr == ('local', 3))
                     why = 'the replacement closure calls self.load(storage) with the captured `storage` parameter (capture resolves to %s)' % (rr,)
         col.add('OWN-STORAGE', 'Hybrid wait_for_readers|replacement loads the same cell', ok, why)
+    # the address published / compared is the address of the CELL: the `storage` parameter itself converted to an integer,
+    # not the address of the local that holds the reference (`&storage as *const _ as usize` never matches anything)
+    def ptr_level(b, op, argno, depth=0):
+        """0 = the value of parameter `argno` (pointer to the cell); +1 per address-of, -1 per deref"""
+        if op is None or depth > 10 or op.get('k') not in ('copy', 'move'):
+            return None
+        pl = op['place']
+        def local_level(l, d):
+            if l == argno:
+                return 0
+            ds = [x for x in b.assigns().get(l, ()) if not x[4]]
+            if len(ds) != 1 or ds[0][2] != 'stmt':
+                return None
+            rv = ds[0][3]
+            if rv['k'] in ('use', 'cast'):
+                return ptr_level(b, rv['op'], argno, d + 1)
+            if rv['k'] in ('ref', 'rawptr'):
+                v = local_level(rv['place']['local'], d + 1)
+                if v is None:
+                    return None
+                for e in rv['place']['proj']:
+                    if e['k'] != 'deref':
+                        return None
+                    v -= 1
+                return v + 1
+            return None
+        v = local_level(pl['local'], depth)
+        if v is None:
+            return None
+        for e in pl['proj']:
+            if e['k'] != 'deref':
+                return None
+            v -= 1
+        return v
+    n_addr = 0
+    for fname, callee, ai, argno in (('<strategy::hybrid::HybridStrategy as strategy::sealed::InnerStrategy>::wait_for_readers', 'pay_all', 1, 3),
+                                     ('arc_swap::strategy::hybrid::HybridProtection::fallback', 'new_helping', 1, 2)):
+        for b in lib.bodies:
+            if b.fname != fname:
+                continue
+            for bb, t in b.calls(include_cleanup=False):
+                if U.callee_name(t) == callee and t['callee'].get('krate') == 'arc_swap':
+                    n_addr += 1
+                    lv = ptr_level(b, t['args'][ai], argno)
+                    col.add('OWN-STORAGE', '%s|%s receives the address of the cell' % (b.fname, callee), lv == 0,
+                            'the integer handed to %s is the `storage` parameter itself (pointer level %s; 0 = address of the cell, 1 = address of a local holding the reference)' % (callee, lv), b.loc(bb))
+    col.floor('OWN-STORAGE', 'storage address conversions', n_addr, 2)
     # pay_all hands its storage_addr parameter down to help unchanged
     for b in lib.bodies:
         for bb, t, cb in cx.local_calls(b):
